@@ -66,7 +66,7 @@ func c06gen(r *gen.R, testing bool) c06case {
 		c.tagW = r.Range(1, 5)
 	}
 	if r.P(40) {
-		c.minW = r.Range(16, 80)
+		c.minW = r.Range(16, 160)
 	}
 	// name: printable (it is not a value; keep it free of controls and markup)
 	if c.name != "" && r.P(50) {
@@ -244,6 +244,7 @@ func c06main(c *Ctx) {
 		defer restore()
 		defer slog.SetLevelOutputWidth(3)
 		defer slog.SetMessageMinimalWidth(36)
+		otherFlags := randomOtherFlags(r, slog.Ldate, slog.Ltime, slog.Lmicroseconds, slog.LlocalTime, slog.Lattrs)
 		run := func(cs c06case) ([]byte, []tv) {
 			if cs.caller {
 				slog.AddFlags(slog.Lcaller)
@@ -275,7 +276,7 @@ func c06main(c *Ctx) {
 		}
 		desc := cs.desc(FColor)
 		desc["ts"] = cs.ts.Format(time.RFC3339Nano)
-		desc["tag_width"], desc["min_width"], desc["layout_domain"] = cs.tagW, cs.minW, cs.layoutOK
+		desc["tag_width"], desc["min_width"], desc["layout_domain"], desc["other_flags"] = cs.tagW, cs.minW, cs.layoutOK, otherFlags
 		payload, viols := run(cs)
 		if len(viols) == 0 {
 			c.R.Add("records_decoded", 1)
